@@ -249,7 +249,7 @@ func evaluateNoUnionInstanceMethod(
 
 		if err != nil {
 			m.parser.SetLastEvaluatedT(
-				calculateExecutionType(m, methodT, evaluatedArgs),
+				calculateExecutionType(m, methodT.DeepCopy(), evaluatedArgs),
 			)
 
 			return err
